@@ -34,8 +34,8 @@ class Scenario:
         self.model = rng.choice(list(models))
         self.membrane = gen.gen_membrane(rng, self.mix)
         self.pv = Pervaporation(self.membrane, self.mix)
-        self.t0 = rng.uniform(283.0, 390.0)
-        self.x0 = gen.gen_composition(rng, self.mix, basis=basis, edge=0.02)
+        self.t0 = gen.pick_temperature(rng, 283.0, 390.0)
+        self.x0 = gen.pooled_composition(rng) if (basis in (None, "weight") and rng.random() < 0.15) else gen.gen_composition(rng, self.mix, basis=basis, edge=0.02)
         self.mode = rng.choice(modes or ["V", "T", "T", "P", "Psmall", "P0"])
         try:
             self.tp, self.pp = gen.gen_permeate(rng, self.mode, self.mix, self.t0, self.x0, self.model)
